@@ -98,8 +98,10 @@ CLAIMS = {
             'mode (dry run changes nothing; carried-over bytes are conserved; every real step on a look-ahead buffer is the step of the one-shot '
             'decoder by input-locality lemmas lemma_repl_*; after the end marker nothing decodes), header staging verified incl. the leftover move. '
             'PROVED DIRECTION: stream accepts => one-shot accepts with identical output, and one-shot rejects => stream rejects; plus header phase '
-            'never refuses an acceptable incomplete header. NOT PROVED: that a data-phase write / finish never fails when the one-shot decoder '
-            'succeeds (needs the 20-byte bound on a symbol and dry-run == real-run agreement; see DESIGN.md).',
+            'never refuses an acceptable incomplete header; the look-ahead decisions are proved against the spec (the dry run answers Ok iff '
+            'the spec can decode a symbol from the bytes offered; the decoder waits only if it cannot; a real step on fewer than 20 bytes '
+            'happens only after a successful dry run; MAX_REQUIRED_INPUT >= 20). NOT PROVED: that a data-phase write / finish never fails '
+            'when the one-shot decoder succeeds (needs the 20-byte bound on a symbol, assumed as A-20B, and dry-run == real-run agreement).',
             'Verus per-call invariant (ghost history universally quantified) + spec-level lemmas', '5 C05'),
     'C15': (True,
             'Unbounded deductive proof (Verus): Stream::lemma_prefix_of_every_completion: under the verified invariant, what the sink has received and '
